@@ -1138,13 +1138,18 @@ impl Directory for MonDir {
                     if let Some(meta) = st.meta_durable.clone() {
                         if let Ok(files) = meta_referenced_files(&meta) {
                             if files.iter().any(|(f, _)| f == &p) {
+                                let detail = json!({"file": p, "durable_meta_opstamp": meta_opstamp(&meta),
+                                           "visible_meta_opstamp": st.meta_visible.as_ref().and_then(|m| meta_opstamp(m)),
+                                           "deleted_by": cur_thread_name(),
+                                           "recent_commit_point_events": st.log.iter().rev()
+                                               .filter(|e| e.path == "meta.json" || e.kind == OpKind::SyncDir || e.kind == OpKind::Client || e.path.ends_with("meta.lock"))
+                                               .take(14)
+                                               .map(|e| format!("{} {} {:?} {} {}", e.seq, e.tname, e.kind, e.path, e.note))
+                                               .collect::<Vec<_>>()});
                                 Self::viol(
                                     &mut st,
-                                    &format!(
-                                        "T3:delete-of-file-referenced-by-durable-meta:{}",
-                                        file_kind(&p)
-                                    ),
-                                    json!({"file": p, "durable_meta_opstamp": meta_opstamp(&meta)}),
+                                    &format!("T3:delete-of-file-referenced-by-durable-meta:{}", file_kind(&p)),
+                                    detail,
                                 );
                             }
                         }
